@@ -120,7 +120,11 @@ class EllipticalArc(NamedTuple):
         elif theta_arc > 0 and not self.sweep:
             theta_arc -= TWO_PI
 
-        center_point = point_transform.inverse().map_point(center_point)
+        # map back with the inverse built from its factors: inverting point_transform
+        # numerically fails for huge radii (its determinant 1 / (rx * ry) underflows
+        # Affine2D's degeneracy threshold and the centre would collapse to the origin)
+        inverse_transform = Affine2D.identity().rotate(angle).scale(self.rx, self.ry)
+        center_point = inverse_transform.map_point(center_point)
 
         return CenterParametrization(theta1, theta_arc, center_point)
 
